@@ -206,7 +206,7 @@ def evaluate(ctx, cases, label, kmax=9, n_random=6, big_F=200, forced=None, big_
             continue
         seen.add(key)
         try:
-            lat = Lattice(pos.copy(), edges.copy(), crossing.copy())
+            lat = Lattice(*layout_variant(pos, edges, crossing)[:3])
             F = lat.n_plaquettes
         except LatticeException:
             res.skip("plaquette-finder-raised(C01)")
